@@ -136,8 +136,67 @@ def oracle(case, date, sh, ctx):
     return fails
 
 
+def large_shard(desc):
+    """Large joint table: A (small) simulated alone and together with a B of > 1000 rows built from
+    many relabelled copies of generated households (incl. children covering their own needs), B first.
+    Reaches size-dependent code paths (global counters, dense/sparse switches)."""
+    import datetime
+
+    from .. import dates as D
+
+    sh = core.Shard()
+    known = core.load_known(PROP)
+    date = datetime.date.fromisoformat(desc["date"])
+
+    @st.composite
+    def strat(draw):
+        a = draw(popgen.populations(date, **GEN))
+        b = draw(popgen.populations(date, mode="branch", max_households=2, archetypes=["adult_child", "adult_child", "couple_kids", "single_parent"]))
+        return _Case((a, b))
+
+    def oracle(case):
+        a, b = case
+        bdf = b.df.copy()
+        young = (bdf["alter"] < 25) & (bdf["alter"] >= 18) & (bdf["p_id_einstandspartner"] < 0) & (bdf["p_id_elternteil_1"] >= 0)
+        bdf.loc[young, "eigenbedarf_gedeckt"] = True
+        k = -(-desc["rows"] // len(bdf))
+        big = popgen.replicate(bdf, k, seed=desc["seed"] % 2**31)
+        # disjoint ids: shift B above A's ids
+        off_p = int(a.df["p_id"].max()) + 1
+        off_h = int(a.df["hh_id"].max()) + 1
+        big["p_id"] += off_p
+        big["hh_id"] += off_h
+        for c in popgen.POINTER_COLS:
+            big[c] = np.where(big[c] >= 0, big[c] + off_p, big[c])
+        if big["p_id"].max() >= 10**6 or big["hh_id"].max() >= 10**5:
+            return []
+        na, nb = len(a.df), len(big)
+        order = list(range(na, na + nb)) + list(range(na))  # B first, then A
+        rp = list(range(na))
+        rh = list(range(len(set(a.df["hh_id"].tolist()))))
+        fails, joint, is_a = check(a.df, big, order, [int(v) for v in np.random.RandomState(1).permutation(10**5)[:na]], rh, date)
+        sh.nontrivial.add("large|" + core.digest([desc["date"], a.df["p_id"].tolist(), nb]))
+        sh.classes["large-joint-table(>1000 rows)"] += 1
+        sh.classes[f"own-needs-children-in-B>={min(int(big['eigenbedarf_gedeckt'].sum()) // 100 * 100, 300)}"] += 1
+        sh.sample({"date": desc["date"], "rows_B": int(nb), "A": popgen.brief(a.df, max_rows=3)}, limit=1)
+        for f in fails:
+            if f.key not in known:
+                f.case = {"date": str(date), "A": popgen.df_to_plain(a.df), "B": popgen.df_to_plain(big), "order": order,
+                          "rp": [int(v) for v in np.random.RandomState(1).permutation(10**5)[:na]], "rh": rh}
+        return fails
+
+    core.explore(strat(), oracle, n=desc["n"], seed=D.sub_seed(desc["seed"], PROP, "large", desc["date"]), shard=sh,
+                 known=known, shrink=False)
+    return sh
+
+
 def run(tier, seed, t0):
-    return popcheck.run(__name__, tier, seed, t0)
+    from .. import dates as D
+
+    days = [s[0].isoformat() for s in D.pick(D.strata(), 4 if tier == "quick" else 16, seed, PROP, "large")]
+    extra = [("vf.checks.c02", "large_shard", [{"date": d, "rows": 1100, "n": 1 if tier == "quick" else 3,
+                                                "seed": D.sub_seed(seed, "large", d)} for d in days])]
+    return popcheck.run(__name__, tier, seed, t0, extra_descs=extra)
 
 
 def replay(case):
